@@ -100,7 +100,7 @@ func main() {
 	if err != nil {
 		exe = os.Args[0]
 	}
-	workers := 16
+	workers := 8
 	if w := os.Getenv("VERIF_WORKERS"); w != "" {
 		if v, err := strconv.Atoi(w); err == nil && v > 0 {
 			workers = v
